@@ -133,6 +133,8 @@ class Ctx:
         self._req = 0
         self._srv = 1
         self._push = 0
+        self.pool = []  # request streams the local application opened before the peer stopped the critical streams
+        self.local_sends_closed = False
 
     def next_push_id(self):
         self._push += 1
@@ -150,7 +152,14 @@ class Ctx:
             return sid
         # client victim: the local application opens the request stream first
         quic, http = self.vic.quic, self.vic.http
+        if self.pool:
+            return self.pool.pop(0)
         sid = quic.get_next_available_stream_id()
+        if self.local_sends_closed:
+            # (the peer stopped the victim's QPACK encoder stream: a local send_headers() is the application's business,
+            # not network input; the request stream is opened at the transport level instead)
+            quic.send_stream_data(sid, b"", end_stream=False)
+            return sid
         http.send_headers(sid, REQUEST_HEADERS, end_stream=True)
         return sid
 
@@ -291,7 +300,9 @@ class Victim:
         from aioquic.h3.events import H3Event
         from aioquic.quic.events import DatagramFrameReceived, StreamDataReceived
 
-        if slot == "dgram":
+        if slot == "event":
+            ev, data = data, b""  # a transport event produced by the real QuicConnection (e.g. StopSendingReceived)
+        elif slot == "dgram":
             ev = DatagramFrameReceived(data=data)
         else:
             if slot in self.ctx.finished:
@@ -401,6 +412,8 @@ class _TransportRaised(Exception):
 
 
 def _brief_event(slot, data, fin):
+    if slot == "event":
+        return "transport event"
     return "%s len=%d fin=%s head=%s" % ("datagram" if slot == "dgram" else "stream %d" % slot, len(data), fin, data[:24].hex())
 
 
@@ -497,8 +510,41 @@ def apply_prefix(vic):
     for slot, data, fin in segs:
         if not vic.feed(slot, data, fin, stage="prefix"):
             break
+    if vic.prefix == "ctrl_stopped" and not vic.raised:
+        peer_stops_critical_streams(vic)
     vic.prefix_events = vic.http_events
     vic.prefix_closed = bool(vic.close_calls)
+
+
+def peer_stops_critical_streams(vic):
+    """The peer sends STOP_SENDING for the three unidirectional streams the victim's HTTP/3 layer writes to (control, QPACK
+    encoder, QPACK decoder): a legal transport frame for a stream it receives on.  The frame goes through the
+    connection's real handler (which resets the sending half and queues StopSendingReceived); the event is fed to the
+    HTTP layer like any other.  What the peer then places on its streams must still not make handle_event raise —
+    e.g. a header block whose acknowledgement has to be written to the stopped decoder stream."""
+    from aioquic import tls
+    from aioquic.buffer import Buffer
+    from aioquic.quic.connection import QuicReceiveContext
+
+    from .. import c16_gen as G
+
+    http, quic = vic.http, vic.quic
+    if vic.role == "client":
+        vic.ctx.pool = [vic.ctx.new_req() for _ in range(3)]
+    vic.ctx.local_sends_closed = True
+    for sid in (http._local_control_stream_id, http._local_encoder_stream_id, http._local_decoder_stream_id):
+        if sid is None:
+            raise RuntimeError("harness: HTTP/3 layer has not opened its unidirectional streams")
+        rc = QuicReceiveContext(epoch=tls.Epoch.ONE_RTT, host_cid=quic.host_cid, network_path=quic._network_paths[0],
+                                quic_logger_frames=[], time=vic.now, version=quic._version)
+        quic._handle_stop_sending_frame(rc, 0x05, Buffer(data=G.V(sid) + G.V(0x10C)))
+        while True:
+            ev = quic.next_event()
+            if ev is None:
+                break
+            vic.count("transport_events_fed_after_stop_sending")
+            if not vic.feed("event", ev, False, stage="prefix"):
+                return
 
 
 # ---------------------------------------------------------------------------- chunking
@@ -574,8 +620,9 @@ def exec_case(base, wt, prefix, case):
     prefix_viol = len(vic.violations)
     for v in vic.violations:
         v["signature"] += ":in-valid-prefix"
-    prefix_ok = not (vic.prefix_closed or vic.raised or (
-        prefix != "fresh" and vic.prefix_events == 0 and prefix not in ("ctrl", "req_blocked")))
+    closed_ok = prefix == "ctrl_stopped" and vic.prefix_closed and vic.close_calls[0][0] == 0x104  # H3_CLOSED_CRITICAL_STREAM
+    prefix_ok = not ((vic.prefix_closed and not closed_ok) or vic.raised or (
+        prefix != "fresh" and vic.prefix_events == 0 and prefix not in ("ctrl", "req_blocked", "ctrl_stopped")))
     ctx = vic.ctx
     base_events = vic.http_events
     segs, label = G.build(case, ctx) if case is not None else ([], ("-", "-"))
